@@ -145,7 +145,7 @@ func (g *gen) strLit() string {
 		case k == 3:
 			sb.WriteString(`\t`)
 		case k == 4:
-			sb.WriteString(g.pick(`\xff`, `\xfe`, `\xc0`))
+			sb.WriteString(g.pick(`\xff`, `\xfe`, `\xc0`, `\x80`, `\xc3`, `\xe2\x82`, `\xc3\xa9`, `\xe2\x82\xac`, `\xf0\x9f\x98\x80`))
 			g.feat("highbyte")
 		case k < 12:
 			sb.WriteByte(" !#$%&'()*+,-./:;<=>?@[]^_`{|}~"[g.n(31)])
@@ -1575,15 +1575,69 @@ func (g *gen) manyArgsStmt() string {
 	return strings.TrimSuffix(sb.String(), "\n")
 }
 
+// strings that are not valid UTF-8 (and valid multi-byte characters next to them): first / rest / for work on runes,
+// a byte that starts no valid sequence is one rune U+FFFD; len, indexing, slicing, + and comparisons work on bytes.
+var utf8Frags = []string{`\x80`, `\xbf`, `\xc3`, `\xe2`, `\xf0`, `\xe2\x82`, `\xf0\x9f\x98`, `\xff`, `\xfe`, `\xc0\xaf`, `\xc1\x81`,
+	`\xed\xa0\x80`, `\xf4\x90\x80\x80`, `\xf5\x80\x80\x80`, `\xe0\x9f\xbf`, `\xc3\xa9`, `\xe2\x82\xac`, `\xf0\x9f\x98\x80`, `\xef\xbf\xbd`,
+	`\xc2\x80`, `\xdf\xbf`, `\xe0\xa0\x80`, `\xf4\x8f\xbf\xbf`, `a`, `z`, `0`, ` `, `\n`}
+
+func (g *gen) utf8Str() string {
+	n := 1 + g.n(6)
+	var sb strings.Builder
+	sb.WriteByte('"')
+	for i := 0; i < n; i++ {
+		sb.WriteString(utf8Frags[g.n(len(utf8Frags))])
+	}
+	sb.WriteByte('"')
+	return sb.String()
+}
+
+func (g *gen) utf8Stmt() string {
+	g.feat("utf8-edge-string")
+	var sb strings.Builder
+	w := func(f string, a ...any) { sb.WriteString(fmt.Sprintf(f, a...) + "\n") }
+	s1, s2 := g.fresh("us"), g.fresh("us")
+	w("%s = %s", s1, g.utf8Str())
+	w("%s = %s", s2, g.utf8Str())
+	switch g.n(6) {
+	case 0: // iteration by rune
+		c := g.fresh("uc")
+		w("for %s = %s {print(len(%s), %s[0], \"\")}", c, s1, c, c)
+		w("for %s = %s + %s {print(%s)}", c, s1, s2, c)
+	case 1: // first / rest chains
+		w("println(len(first(%s)), len(rest(%s)), len(%s))", s1, s1, s1)
+		w("println(first(%s), rest(%s))", s1, s1)
+		w("println(first(rest(%s)), rest(rest(%s)), rest(first(%s)))", s1, s1, s1)
+		w("[first(%s), rest(%s), first(%s + %s)]", s2, s2, s2, s1)
+	case 2: // recursion with first/rest (a rune counter)
+		f := g.fresh("cnt")
+		w("func %s(s) {if len(s) == 0 {return 0}\nr = rest(s)\nif r == nil {return 1}\n1 + %s(r)}", f, f)
+		w("println(%s(%s), %s(%s), len(%s), len(%s))", f, s1, f, s2, s1, s2)
+	case 3: // bytes: len, index, slices
+		w("println(len(%s), %s[0], %s[-1], %s[1], %s[%d])", s1, s1, s1, s1, s1, g.n(8))
+		w("[%s[1:], %s[0:2], %s[-2:], %s[1:3], len(%s[%d:%d])]", s1, s1, s1, s2, s2, g.n(3), 2+g.n(4))
+	case 4: // concatenation, repetition and comparisons are bytewise
+		w("println(len(%s + %s), len(%s * 2), %s < %s, %s == %s, %s >= %s, %s != %s + \"\")", s1, s2, s1, s1, s2, s1, s2, s1, s2, s1, s1)
+		w("[%s + %s, first(%s + %s), rest(%s * 2)]", s1, s2, s2, s1, s1)
+	default: // text form inside containers (invalid bytes are written \xNN)
+		w("println([%s[0:1], %s[0]])", s1, s2)
+		w("m = {%s: 1}", s1)
+		w("[len(m), first(m).key, rest(%s)]", s2)
+	}
+	return strings.TrimSuffix(sb.String(), "\n")
+}
+
 func (g *gen) edgeProgram() string {
 	var parts []string
 	n := 1 + g.n(3)
 	for i := 0; i < n; i++ {
 		switch k := g.n(100); {
-		case k < 45:
+		case k < 35:
 			parts = append(parts, g.edgeCmpStmt())
-		case k < 65:
+		case k < 50:
 			parts = append(parts, g.variadicNestStmt())
+		case k < 75:
+			parts = append(parts, g.utf8Stmt())
 		default:
 			parts = append(parts, g.manyArgsStmt())
 		}
@@ -1797,11 +1851,13 @@ func (g *gen) stmt(nest int, ret ty) string {
 			return g.idiomStmt()
 		}
 		if g.pct(40) && !g.inFunc() && g.inLoop == 0 {
-			switch g.n(3) {
+			switch g.n(4) {
 			case 0:
 				return g.edgeCmpStmt()
 			case 1:
 				return g.manyArgsStmt()
+			case 2:
+				return g.utf8Stmt()
 			}
 			return g.variadicNestStmt()
 		}
